@@ -90,6 +90,30 @@ for _n, _p in {
     'stack': 'lambda a: np.stack((a, a))', 'hstack': 'lambda a: np.hstack((a, a))', 'tile': 'lambda a: np.tile(a, 2)',
     'pad': 'lambda a: np.pad(a, 1)', 'cumsum': 'lambda a: np.cumsum(a)', 'nonzero': 'lambda a: np.nonzero(a)',
     'array_equal': 'lambda a: np.array_equal(a, a)', 'isscalar': 'lambda a: np.isscalar(a)',
+    'arange': 'lambda a: np.arange(a.size)', 'ones': 'lambda a: np.ones(a.shape)', 'zeros': 'lambda a: np.zeros(a.shape)',
+    'allclose': 'lambda a: np.allclose(np.sum(a), 1.0)', 'issubdtype': 'lambda a: np.issubdtype(a.dtype, np.integer)',
+    'argmax': 'lambda a: np.argmax(a)', 'nanargmax': 'lambda a: np.nanargmax(a)', 'ceil': 'lambda a: np.ceil(a)',
+    'dot': 'lambda a: np.dot(a.ravel(), a.ravel())', 'indices': 'lambda a: np.indices(a.shape)',
+    'unravel_index': 'lambda a: np.unravel_index(np.nanargmax(a), a.shape)',
+    'linalg.lstsq': 'lambda a: np.linalg.lstsq(np.vstack((np.ones(a.size), np.arange(a.size))).T, a.ravel(), rcond=None)[0]',
+    'nanmin': 'lambda a: np.nanmin(a, axis=0)', 'nanmean': 'lambda a: np.nanmean(a, axis=0)',
+    'nanstd': 'lambda a: np.nanstd(a, axis=0)', 'power': 'lambda a: np.power(a, 2)', 'sign': 'lambda a: np.sign(a)',
+    'subtract': 'lambda a: np.subtract(a, 1)', 'divide': 'lambda a: np.divide(a, 2)', 'negative': 'lambda a: np.negative(a)',
+    'full_like': 'lambda a: np.full_like(a, 1)', 'empty_like': 'lambda a: np.empty_like(a)',
+    'logical_and': 'lambda a: np.logical_and(a, a)', 'isinf': 'lambda a: np.isinf(a)', 'cos': 'lambda a: np.cos(a)',
+    'sin': 'lambda a: np.sin(a)', 'deg2rad': 'lambda a: np.deg2rad(a)', 'percentile': 'lambda a: np.percentile(a, 50)',
+    'repeat': 'lambda a: np.repeat(a, 2)', 'roll': 'lambda a: np.roll(a, 1)', 'delete': 'lambda a: np.delete(a, 0)',
+    'append': 'lambda a: np.append(a, a)', 'insert': 'lambda a: np.insert(a, 0, 0)', 'cumprod': 'lambda a: np.cumprod(a)',
+    'var': 'lambda a: np.var(a, axis=0)', 'nanvar': 'lambda a: np.nanvar(a, axis=0)', 'trace': 'lambda a: np.trace(a)',
+    'outer': 'lambda a: np.outer(a, a)', 'argmin': 'lambda a: np.argmin(a)', 'amax': 'lambda a: np.amax(a, axis=0)',
+    'amin': 'lambda a: np.amin(a, axis=0)', 'absolute': 'lambda a: np.absolute(a)', 'gradient': 'lambda a: np.gradient(a)',
+    'column_stack': 'lambda a: np.column_stack((a, a))', 'dstack': 'lambda a: np.dstack((a, a))',
+    'ma.mean': 'lambda a: np.ma.mean(a, axis=0)', 'ma.median': 'lambda a: np.ma.median(a, axis=0)',
+    'ma.std': 'lambda a: np.ma.std(a, axis=0)', 'ma.min': 'lambda a: np.ma.min(a)', 'ma.max': 'lambda a: np.ma.max(a)',
+    'ma.masked_equal': 'lambda a: np.ma.masked_equal(a, 0)', 'ma.masked_greater': 'lambda a: np.ma.masked_greater(a, 0)',
+    'ma.masked_less': 'lambda a: np.ma.masked_less(a, 0)', 'ma.is_masked': 'lambda a: np.ma.is_masked(a)',
+    'ma.concatenate': 'lambda a: np.ma.concatenate((a, a))', 'ma.count_masked': 'lambda a: np.ma.count_masked(a)',
+    'ma.sqrt': 'lambda a: np.ma.sqrt(np.abs(a))', 'ma.average': 'lambda a: np.ma.average(a, axis=0)',
 }.items():
     EXT['numpy.' + _n]['probe'] = _p
 
@@ -150,7 +174,7 @@ EXT.update({
     'numpy.float64': _row('scalar'), 'numpy.int64': _row('scalar'),
     # ---- builtins ----
     'builtins.len': _row('scalar'), 'builtins.int': _row('scalar'), 'builtins.float': _row('scalar'),
-    'builtins.bool': _row('scalar'), 'builtins.str': _row('scalar'), 'builtins.abs': _row('fresh'),
+    'builtins.bool': _row('scalar'), 'builtins.str': _row('scalar'), 'builtins.abs': _row('fresh', 'lambda a: abs(a)'),
     'builtins.min': _row('maybeall'), 'builtins.max': _row('maybeall'), 'builtins.sum': _row('fresh'),
     'builtins.range': _row('scalar'), 'builtins.isinstance': _row('scalar'), 'builtins.hasattr': _row('scalar'),
     'builtins.issubclass': _row('scalar'), 'builtins.callable': _row('scalar'), 'builtins.repr': _row('scalar'),
@@ -170,8 +194,11 @@ EXT.update({
     'astropy.units.UnitsError': _row('scalar'),
     'astropy.table.QTable': _row('join', None), 'astropy.table.Table': _row('join', None),
     'astropy.modeling.fitting.TRFLSQFitter': _row('scalar'),
-    'astropy.modeling.fitting.TRFLSQFitter.__call__': _row('fresh'),      # fits a copy of the model
-    'astropy.modeling.models.Gaussian1D': _row('fresh'), 'astropy.modeling.models.Gaussian2D': _row('fresh'),
+    'astropy.modeling.fitting.TRFLSQFitter.__call__': _row(               # fits a copy of the model
+        'fresh', 'lambda a: TRFLSQFitter()(Gaussian1D(1.0, 3.0, 2.0), np.arange(a.size, dtype=float), a.ravel(), '
+                 'weights=np.abs(a.ravel()) + 1).parameters'),
+    'astropy.modeling.models.Gaussian1D': _row('fresh', 'lambda a: Gaussian1D(*a.ravel()[:3]).parameters'),
+    'astropy.modeling.models.Gaussian2D': _row('fresh', 'lambda a: Gaussian2D(*a.ravel()[:5]).parameters'),
     'astropy.modeling.models.Gaussian1D.__call__': _row('fresh'),
     'scipy.ndimage.convolve': _row('fresh', 'lambda a: ndi.convolve(a.astype(float), np.ones((3,) * a.ndim))'),
     'scipy.ndimage.maximum_filter': _row('fresh', 'lambda a: ndi.maximum_filter(a.astype(float), size=3)'),
